@@ -107,6 +107,16 @@ def decorate(draw, p):
         pads += [[["I", "txn", ["GroupIndex"]], ["I", "gtxns", ["Fee"]], ["I", "pop", []]],
                  [["I", "int", ["0"]], ["I", "gtxns", ["Fee"]], ["I", "pop", []]],
                  [["I", "pushint", ["1"]], ["I", "gtxns", ["Sender"]], ["I", "pop", []]]]
+    # an address field compared with a value only known at run time (the tool's placeholder heuristic);
+    # assembler-valid, consumed by assert so that the analyses look at the comparison
+    srcs = [["I", "load", ["3"]], ["I", "txna", ["Accounts", "1"]], ["I", "gtxn", ["1", "Sender"]]]
+    if p["version"] >= 3:
+        srcs.append(["I", "global", ["CreatorAddress"]])
+    if p["version"] >= 8:
+        srcs += [["I", "frame_dig", ["-1"]]] * 2
+    for src in srcs:
+        for fld in ("Sender", "RekeyTo", "CloseRemainderTo"):
+            pads.append([src, ["I", "txn", [fld]], ["I", "==", []], ["I", "assert", []]])
     items = []
     n = 0
     for it in p["items"]:
